@@ -20,7 +20,7 @@ import time
 VERIF = os.path.dirname(os.path.dirname(os.path.abspath(__file__)))
 COQ = os.path.join(VERIF, 'coq')
 WORK = os.path.join(VERIF, '.work')
-REPO = '/repo'
+REPO = os.environ.get('VERIF_REPO', '/repo')
 COQC_TIMEOUT = 600
 MAKE_TIMEOUT = 1500
 
